@@ -20,9 +20,24 @@ NOT_APPLICABLE = {
 
 # claimed by DESIGN.md but whose check is not built yet (kept out of `checks` until it runs clean end to end)
 PENDING = {p: "in scope for deterministic simulation (DESIGN.md §5) but the check is not built yet in this revision; not claimed"
-           for p in ["C07", "C14"]}
+           for p in ["C07"]}
 
 PROPS = {
+    "C14": {
+        "level": "exploration",
+        "level_text": "every model server / memory device discovered from the source tree that exposes a single-register Get/Update/Pull triple is put behind wrapper -> router -> wrapper (all real code, free-running between the two wrappers) and driven with protoreflect-built random updates, update masks (valid, invalid, nil) and read masks, with 0-2 open streams whose readers keep up; relational register laws at true quiescence after every RPC; measured coverage of the discovered triples",
+        "level_note": TRUST + "; servers whose constructor or request shape the discovery does not understand are listed in the evidence as not covered; float fields count as changed only from a difference of 1.0 (the models' tolerances are their business); tweens are not advanced between an Update and the following Get",
+        "technique": "deterministic simulation (client task, fake clock, synctest quiescence) of the full wrapper/router/wrapper/server stack with relational read-your-writes oracles over discovered Get/Update/Pull triples",
+        "rule": ("(server, triple) from the decision tape, then 1-6 RPCs (Update with random message and mask kind, Get with read mask, open Pull updates-only or not); every run is non-trivial (client, server and stream readers); "
+                 "distinct = distinct (server/triple, RPC kind sequence) fingerprints"),
+        "scenarios": [
+            {"name": "stack", "quick": 40000, "thorough": 2000000, "thorough_time": 300, "extra": ["-sim.only=get-failed,read-mask,pull-failed,pull-no-seed,pull-seed,pull-name,unrouted,rejected-update-changed-state,read-your-write,update-not-streamed,stream-order-differs,rpc-stuck,panic"]},
+        ],
+        "case_space": "from_worker",
+        "case_space_what": "(discovered server, Get/Update/Pull triple) pairs",
+        "require_hits": [],
+        "assumptions": ["item-addressed resources (Get by id) are not single registers and are listed as not covered"],
+    },
     "C12": {
         "level": "exploration",
         "level_text": "every generated router (discovered from the source tree, count cross-checked against the file glob) x every method of its service descriptor, driven through the descriptor's own handlers with random requests and scripted fake backends (faults: backend status at any position, caller send error at message j, factory/fallback misses); registry histories by 1-3 tasks at the router's windows checked for linearizability against a map model; measured coverage of the (router, method) space, required complete in the thorough tier",
